@@ -16,7 +16,7 @@ from lib import vf
 INVARIANTS = ("ForwardOnlyRouted AnsweredLocally EveryAnswerHasAKind PathStaysAbsolute EscapesSurvive "
               "OnlyStripAndPrepend QueryMergedInFront HostOnlyOnRequest PeerIsTold TLSHeaderTruthful "
               "RequestedHostIsTold RequestedPortIsTold STSOnlyOnTLS RedirectStatusIs3xx NeverRedirectsToItself "
-              "RedirectCarriesQuery FaultNotHidden HistoryIndependent ConnectionIndependent NoRoutePageWasConfigured")
+              "RedirectCarriesQuery FaultNotHidden HistoryIndependent ConnectionIndependent NoRoutePageWasConfigured STSOnEveryTLSAnswer")
 
 CFG = """SPECIFICATION Spec
 CONSTANTS
@@ -34,12 +34,12 @@ CHECK_DEADLOCK FALSE
 """
 
 ACTIONS = ["ChooseOuter", "ChooseCase", "RegistryPage", "Arrive", "PageUpdate", "Lookup", "NextHost", "NoRoute", "Deny", "Redirect",
-           "BuildTarget", "AddHeaders", "Forward", "Respond"]
+           "BuildTarget", "AddHeaders", "DialFails", "Forward", "Respond"]
 # actions a property's universe cannot reach by construction (Deny is exercised by the model-only run)
 UNREACHED = {
     "C07": {"Deny", "Redirect"},
     "C08": {"Deny", "Redirect", "NoRoute", "NextHost", "RegistryPage", "PageUpdate"},
-    "C13": {"Deny", "RegistryPage", "PageUpdate"},
+    "C13": {"Deny", "RegistryPage", "PageUpdate", "DialFails"},
 }
 HARNESS = {"C07": "c07", "C08": "c08", "C13": "c13"}
 
@@ -101,17 +101,18 @@ def run_harness(ctx, prop, cases, what, timeout=1500, env=None, race=False, test
     return check_run(ctx, prop, r, what)
 
 
-def run_main_harness(ctx, cases, what, timeout=900):
-    """The C07 cases through package main's own wiring: the shared harness files are compiled into package main."""
+def run_main_harness(ctx, cases, what, timeout=900, prop="C07"):
+    """Cases through package main's own wiring: the shared harness files are compiled into package main."""
     extra = {}
-    for f in ("common_verif_test.go", "c07_test.go"):
+    name = HARNESS[prop]
+    for f in ("common_verif_test.go", "%s_test.go" % name):
         src = open(os.path.join(vf.HARNESS, "proxy", f)).read().replace("package proxy\n", "package main\n", 1)
         dst = os.path.join(ctx.tmp, "main_" + f)
         with open(dst, "w") as fh:
             fh.write(src)
         extra["zz_verif_px_" + f] = dst
-    r = ctx.gotest(".", ["main/c07_main_test.go"], "^TestVerifC07Main$", env={"VERIF_IN": cases}, timeout=timeout, extra_files=extra)
-    return check_run(ctx, "C07", r, what)
+    r = ctx.gotest(".", ["main/%s_main_test.go" % name], "^TestVerif%sMain$" % prop, env={"VERIF_IN": cases}, timeout=timeout, extra_files=extra)
+    return check_run(ctx, prop, r, what)
 
 
 def filter_cases(src, dst, keep):
@@ -248,6 +249,7 @@ def run(ctx):
         "bodies {0, 1, 32 KiB+1, 1 MiB} x {Content-Length, chunked in seeded pieces} attached round-robin to requests and upstream answers",
         "never sliced: the no-route page after a history of registry operations (set, replace, remove, set again; 8 histories) - delivered by a scripted registry back end through main.watchNoRouteHTML in the package main part - and while the registry keeps replacing it (3 sets of pages, every request repeated 120 / 400 times): the answer must be ONE of the pages configured while the request was there, complete; queries with ';', invalid escapes and a trace parameter",
         "second binding: the never-sliced cases and the no-route cases are replayed a second time through package main's own wiring (main.newHTTPProxy: its Lookup function, transports, every metrics handler set; proxy.ListenAndServeHTTP where a case asks for fabio's own listener); in package proxy the proxy is put together the same way with the metrics handlers set",
+        "never sliced (round 4): request-targets ending in a bare '?' (the RAW request-target at the upstream is compared; with a route query the bare '?' is not asked); proxy.gzip.contenttype set (^text/) and not set x answers that already carry Content-Encoding deflate / br / identity / compress to a client accepting gzip, and plain answers to a client not asking for gzip: headers and body unchanged; the route's instance refuses the connection (body-less GET / DELETE, host option none / dst / name, with and without a route WITHOUT a host matching the same path): a 5xx of fabio and no upstream at all sees the request",
         "never sliced: upstream statuses 200, 299, 300, 404, 499, 500, 599, 600, 799, 999 and the no-route status, each with and without an access logger configured; upstreams that die before their answer is complete (closed before any header; Content-Length announced, closed after 10 000 of 32 769 body bytes; chunked without the last chunk after 10 000 / 0 body bytes, closed or reset): the client must either see the exchange fail or get a 5xx from fabio, never a complete-looking answer with part of the body missing (what the upstream had received is not judged in these cases)",
         "strip leaving an empty or relative rest together with prepend follows the documentation's reading: strip yields an absolute path ('forward /path/to/file as /to/file'), 'prepending is done after stripping' (/strip -> /pre/, /stripme/x -> /pre/me/x, strip=/strip/ on /strip/a/b -> /pre/a/b)",
         "scope: a strip prefix that ends inside an escape is not asked; hop-by-hop headers are net/http's; User-Agent suppression and added forwarding headers are not judged here (C08)",
